@@ -23,6 +23,10 @@ func main() {
 		m.Close()
 		return
 	}
+	if len(os.Args) >= 2 && os.Args[1] == "cryptovec" {
+		cryptoVecMain()
+		return
+	}
 	if len(os.Args) >= 2 && os.Args[1] == "c20stress" {
 		c20StressMain(os.Args[2:])
 		return
